@@ -100,20 +100,23 @@ fn buffer_full_handshake(ctx: &Ctx, stats: &mut Stats) {
                         let snap = b.quiesce().await?;
                         let me = snap.connections.iter().find(|c| c.client_id == sid);
                         let received = sub.pubs.len();
-                        let stuck = me.map(|c| c.status == "Busy" && c.outgoing_len == 0 && !c.data_requests.is_empty()).unwrap_or(false);
-                        if stuck && last_seen == (received, snap.counters.ready) {
+                        // (whatever still lies in the outgoing buffer – e.g. the marker itself, pushed without a wake-up – is
+                        // part of the state that has to stay unchanged)
+                        let buffered = me.map(|c| c.outgoing_len).unwrap_or(0);
+                        let stuck = me.map(|c| c.status == "Busy" && !c.data_requests.is_empty()).unwrap_or(false);
+                        if stuck && last_seen == (received, snap.counters.ready + ((buffered as u64) << 32)) {
                             stable += 1;
                         } else {
                             stable = 0;
                         }
-                        last_seen = (received, snap.counters.ready);
+                        last_seen = (received, snap.counters.ready + ((buffered as u64) << 32));
                         if stuck && stable >= 3 {
                             return Ok(Some(
                                 Record::new(
                                     "C09",
                                     "buffer-full-handshake-lost",
                                     format!(
-                                        "{received} of {} messages arrived; the router is idle, the subscriber's socket and its outgoing buffer are empty, yet the connection stays Busy with its backlog (Ready events handled since the burst: {})",
+                                        "{received} of {} messages arrived; the router is idle, the subscriber's socket is drained and nothing changes any more, yet the connection stays Busy with its backlog (Ready events handled since the burst: {})",
                                         n + 1,
                                         snap.counters.ready - ready_before
                                     ),
